@@ -191,7 +191,8 @@ theorem checkPoW_is_c17 (p : Spec.ChainParams) (hash : Bytes) (bits : Nat) :
     Model.BlockCheck.checkPoW p hash bits =
       match Model.checkPoW p.powLimit hash bits with
       | .ok => .ok ()
-      | .errPow => .error .validation := rfl
+      | .errPow => .error .validation
+      | .pyStructError => .error structError := rfl
 
 theorem checkPoW_iff (p : Spec.ChainParams) (hl : p.powLimit < 2 ^ 256) (hash : Bytes) (hh : hash.length = 32)
     (bits : Nat) (hb : bits < 2 ^ 32) :
